@@ -24,7 +24,7 @@ func init() {
 		Level: "exploration",
 		Cases: func(t string) int {
 			if t == ev.Thorough {
-				return 9600
+				return 4800
 			}
 			return 160
 		},
@@ -32,9 +32,9 @@ func init() {
 		Rule: "each case = one real PeerToPeer with 6 connected peers (roles none/seed/root/seed+root all present, connection types drawn from all 7 incl. one undetermined) and a recording application callback; phase A (sequential, synchronous observation): every (dest in {any,seed,root,peer,other} x ttl in {0,1,2,255} x src in {delivering peer, another peer, unknown id, own id} x delivering peer) combination as a fresh packet parsed by the real PacketReader, followed by 0-3 relayed copies through other peers (different extension bytes, same hash); phase B (concurrent): 200 distinct packets, each relayed by 1-6 peers, written in PRNG order into the 6 peers' connections and consumed by the peers' real receive routines (one goroutine per peer, race detector on); phase C (1 case in 4): 600-11000 distinct flooded packets first (bucket rotation and ring wrap of the 20x500 pool), then duplicates of packets at most 1900 distinct packets old. Non-trivial = distinct scenario (phase, dest, ttl, ordered list of (peer role, connection type, src kind) of the copies) that has >=2 copies through different peers or an unauthorized copy.",
 		MinNonTrivial: func(t string) int {
 			if t == ev.Thorough {
-				return 20000
+				return 500000
 			}
-			return 3000
+			return 30000
 		},
 		Required: []string{"copies_sequential", "copies_concurrent", "flooded_delivered_once", "flooded_duplicates_suppressed", "onehop_foreign_src_dropped",
 			"broadcast_from_non_validator_dropped", "first_authorized_delivered", "authorized_after_unauthorized_delivered", "window_duplicates_suppressed",
@@ -47,7 +47,7 @@ func init() {
 		},
 		TimeoutSec: func(t string) int {
 			if t == ev.Thorough {
-				return 3000
+				return 30000
 			}
 			return 300
 		},
